@@ -91,6 +91,34 @@ func main() {
 				fmt.Printf("%s loop %d: header block %d (%s) at %s\n", k, li.ordinal, h.Index, h.Comment, P.posString(tokenPosOf(h)))
 			}
 		}
+	case "sweep":
+		fs := flag.NewFlagSet("sweep", flag.ExitOnError)
+		t := fs.Int("t", 3, "timeout per obligation (s)")
+		match := fs.String("match", "", "substring filter on function names")
+		fs.Parse(os.Args[2:])
+		pk := fs.Args()
+		P := setup(pk)
+		opts := &runOpts{timeout: *t, seed: 1, workdir: envOr("VERIF_SCRATCH", "/var/tmp/verif-dev"), jobs: 14}
+		var keys []string
+		for k, f := range P.funcs {
+			for _, p := range pk {
+				if strings.HasPrefix(k, p+"#") && len(f.Blocks) > 0 && f.Synthetic == "" && strings.Contains(k, *match) {
+					keys = append(keys, k)
+				}
+			}
+		}
+		sort.Strings(keys)
+		for _, k := range keys {
+			func() {
+				defer func() {
+					if r := recover(); r != nil {
+						fmt.Printf("== %s: ENGINE PANIC: %v\n", k, r)
+					}
+				}()
+				r := verifyFunction(P, k, opts)
+				printFnResult(r, false, "")
+			}()
+		}
 	case "check":
 		os.Exit(cmdCheck(os.Args[2:]))
 	default:
@@ -111,7 +139,7 @@ func printFnResult(r *FnResult, verbose bool, only string) int {
 		}
 		if o.Status != "proved" {
 			bad++
-			fmt.Printf("   %-8s %s  [%s %.2fs] %s\n      %s\n", strings.ToUpper(o.Status), o.Name, o.Solver, o.Time, o.Detail, o.Script)
+			fmt.Printf("   %-8s %s  [%s %.2fs] %s\n      at %s  %s\n", strings.ToUpper(o.Status), o.Name, o.Solver, o.Time, o.Detail, o.PosStr, o.Script)
 		} else if verbose {
 			fmt.Printf("   ok       %s  [%s %.2fs]\n", o.Name, o.Solver, o.Time)
 		}
